@@ -39,7 +39,25 @@ func (l *limitWriter) Write(p []byte) (int, error) {
 	return n, err
 }
 
+// limitReaderFrom is a capped writer that also implements io.ReaderFrom the way an "optimised" one
+// would: it reads at most what is left of its budget and then returns without an error.
+type limitReaderFrom struct{ limitWriter }
+
+func (l *limitReaderFrom) ReadFrom(r io.Reader) (int64, error) {
+	n, err := io.Copy(struct{ io.Writer }{l.w}, io.LimitReader(r, l.n))
+	l.n -= n
+	return n, err
+}
+
+func capWriter(readFrom bool, w io.Writer, n int64) io.Writer {
+	if readFrom {
+		return &limitReaderFrom{limitWriter{w, n}}
+	}
+	return &limitWriter{w, n}
+}
+
 type calCase struct {
+	readFrom  bool // the writers handed to exec implement io.ReaderFrom
 	name      string
 	sh        string         // real side: /bin/sh script body
 	steps     []simexec.Step // simulated side
@@ -98,8 +116,8 @@ func runReal(t *testing.T, c calCase, dir string) calResult {
 	var so, se bytes.Buffer
 	cmd := exec.CommandContext(ctx, exe, "cmd")
 	cmd.Stdin = bytes.NewReader([]byte("{}"))
-	cmd.Stdout = &limitWriter{&so, c.cap}
-	cmd.Stderr = &limitWriter{&se, c.cap}
+	cmd.Stdout = capWriter(c.readFrom, &so, c.cap)
+	cmd.Stderr = capWriter(c.readFrom, &se, c.cap)
 	cmd.WaitDelay = c.waitDelay
 	start := time.Now()
 	err := cmd.Run()
@@ -134,8 +152,8 @@ func runSim(t *testing.T, c calCase, dir string) calResult {
 			var so, se bytes.Buffer
 			cmd := simexec.CommandContext(ctx, exe, "cmd")
 			cmd.Stdin = bytes.NewReader([]byte("{}"))
-			cmd.Stdout = &limitWriter{&so, c.cap}
-			cmd.Stderr = &limitWriter{&se, c.cap}
+			cmd.Stdout = capWriter(c.readFrom, &so, c.cap)
+			cmd.Stderr = capWriter(c.readFrom, &se, c.cap)
 			cmd.WaitDelay = c.waitDelay
 			start := time.Now()
 			err := cmd.Run()
@@ -166,6 +184,10 @@ func TestCalibrate(t *testing.T) {
 		{name: "bg-holds-pipes-waitdelay", sh: `sleep 3 & exit 0`, steps: []simexec.Step{{Op: "hold", Fds: []int{1, 2}, Dur: 3000 * ms}, {Op: "exit"}}, cap: 1000, timeout: 200 * time.Millisecond, waitDelay: 300 * time.Millisecond},
 		{name: "bg-holds-pipes-waitdelay-noctx", sh: `sleep 3 & exit 0`, steps: []simexec.Step{{Op: "hold", Fds: []int{1, 2}, Dur: 3000 * ms}, {Op: "exit"}}, cap: 1000, waitDelay: 300 * time.Millisecond},
 		{name: "slow-deadline-bg-waitdelay", sh: `sleep 3 & sleep 5`, steps: []simexec.Step{{Op: "hold", Fds: []int{1, 2}, Dur: 3000 * ms}, {Op: "sleep", Dur: 5000 * ms}, {Op: "exit"}}, cap: 1000, timeout: 200 * time.Millisecond, waitDelay: 300 * time.Millisecond},
+		{name: "readfrom-under-cap", readFrom: true, sh: `printf hello`, steps: []simexec.Step{{Op: "out", Fd: 1, Data: "hello"}, {Op: "exit"}}, cap: 1000},
+		{name: "readfrom-over-cap-small", readFrom: true, sh: `head -c 5000 /dev/zero`, steps: []simexec.Step{{Op: "out", Fd: 1, Fill: 5000}, {Op: "exit"}}, cap: 1000},
+		{name: "readfrom-over-cap-large", readFrom: true, sh: `exec head -c 4000000 /dev/zero`, steps: []simexec.Step{{Op: "out", Fd: 1, Fill: 4000000}, {Op: "exit"}}, cap: 1000},
+		{name: "readfrom-over-cap-large-sigpipe-ignored", readFrom: true, sh: `trap '' PIPE; head -c 4000000 /dev/zero 2>/dev/null; exit 0`, steps: []simexec.Step{{Op: "sigpipe-ignore"}, {Op: "out", Fd: 1, Fill: 4000000}, {Op: "exit"}}, cap: 1000},
 		{name: "missing", exeMode: "missing", cap: 10},
 		{name: "noexec", exeMode: "noexec", sh: "exit 0", steps: []simexec.Step{{Op: "exit"}}, cap: 10},
 		{name: "garbage", exeMode: "garbage", cap: 10},
